@@ -61,9 +61,12 @@ def make_backend(script, **kwargs):
         def __init__(self, *a, **k):
             super().__init__(*a, **k)
             self.events = []
+            self.copied_step = {}   # clone -> step stored in the checkpoint it was started from
 
         def copy_checkpoint(self, src_trial_id, tgt_trial_id):
             before = snapshot(self.checkpoint_trial_path(src_trial_id))
+            f = self.checkpoint_trial_path(src_trial_id) / "checkpoint.txt"
+            self.copied_step[int(tgt_trial_id)] = int(f.read_text().split("step=")[1]) if f.exists() else None
             err = None
             try:
                 super().copy_checkpoint(src_trial_id, tgt_trial_id)
@@ -79,6 +82,11 @@ def make_backend(script, **kwargs):
             self.events.append(("delete", int(trial_id)))
             super().delete_checkpoint(trial_id)
 
+        def _schedule(self, trial_id, config):
+            super()._schedule(trial_id, config)
+            # the job has just been launched (the script needs far longer to start than this snapshot)
+            self.events.append(("launch", int(trial_id), snapshot(self.checkpoint_trial_path(trial_id))))
+
         def stop_trial(self, trial_id, result=None):
             self.events.append(("stop", int(trial_id)))
             super().stop_trial(trial_id, result)
@@ -93,7 +101,19 @@ def make_backend(script, **kwargs):
 def check_events(events):
     """violations (what, signature) of the property on the real file system"""
     viol, stopped, deleted, ended = [], set(), set(), False
+    copied = {}   # target trial -> (source, content copied into its checkpoint directory)
     for e in events:
+        if e[0] == "launch" and e[1] in copied:
+            src, content = copied.pop(e[1])
+            if e[2] != content:
+                viol.append(("trial %d was started with checkpoint_trial_id=%d and copy_checkpoint(%d, %d) was made, but when its job "
+                             "is launched its checkpoint directory %s: the clone trains from scratch" % (
+                                 e[1], src, src, e[1], "is gone" if e[2] is None else "differs from the copied content"),
+                             dict(backend="LocalBackend", event="warm_start_checkpoint_missing_at_job_launch")))
+        if e[0] == "first_report" and e[2] is not None and e[3] is not None and e[2] != e[3] + 1:
+            viol.append(("trial %d, warm-started from a checkpoint written at step %d, reports step %d first: it did not resume "
+                         "from that checkpoint" % (e[1], e[3], e[2]),
+                         dict(backend="LocalBackend", event="warm_start_did_not_resume_from_checkpoint")))
         if e[0] == "stop":
             stopped.add(e[1])
         elif e[0] == "stop_all":
@@ -102,6 +122,8 @@ def check_events(events):
             deleted.add(e[1])
         elif e[0] == "copy":
             _, src, tgt, before, after, tgt_snap, err = e
+            if err is None and tgt_snap is not None:
+                copied[tgt] = (src, before)
             if ended or src in stopped or src in deleted:
                 continue   # covered by the call-log checker of the main stream
             if before is None or err is not None:
@@ -130,16 +152,28 @@ def wait_done(backend, trial_id, timeout=60):
     raise RuntimeError("trial %d did not finish" % trial_id)
 
 
-def stream_backend(tmp):
+def first_report(backend, trial_id, timeout=30):
+    t0 = time.time()
+    while time.time() - t0 < timeout:
+        _, results = backend.fetch_status_results([trial_id])
+        if results:
+            return int(results[0][1]["step"])
+        time.sleep(0.1)
+    return None
+
+
+def stream_backend(tmp, delete_checkpoints=True):
     """a completed, polled, never stopped trial is the source of two warm starts"""
-    backend = make_backend(tmp / "train.py", delete_checkpoints=True)
-    backend.set_path(results_root=str(tmp / "exp1"))
+    backend = make_backend(tmp / "train.py", delete_checkpoints=delete_checkpoints)
+    backend.set_path(results_root=str(tmp / ("exp1_%s" % delete_checkpoints)))
     crash = None
     try:
         backend.start_trial(config={"lr": 0.5})
         wait_done(backend, 0)
-        for _ in (1, 2):
+        for t in (1, 2):
             backend.start_trial(config={"lr": 0.9}, checkpoint_trial_id=0)
+        for t in (1, 2):
+            backend.events.append(("first_report", t, first_report(backend, t), backend.copied_step.get(t)))
     except Exception as e:
         crash = "%s: %s" % (type(e).__name__, str(e)[:120])
     finally:
@@ -157,7 +191,19 @@ def stream_tuner(tmp):
         perturbation_interval=1, population_size=2, quantile_fraction=0.5, points_to_evaluate=[{"lr": 0.5}],
         random_seed=31415927)
     backend = make_backend(tmp / "train.py", delete_checkpoints=True)
-    tuner = Tuner(trial_backend=backend, scheduler=scheduler,
+    from syne_tune.tuner_callback import TunerCallback
+
+    class FirstReport(TunerCallback):
+        def __init__(self):
+            self.seen = set()
+
+        def on_trial_result(self, trial, status, result, decision):
+            if trial.trial_id not in self.seen:
+                self.seen.add(trial.trial_id)
+                backend.events.append(("first_report", int(trial.trial_id), int(result["step"]),
+                                       backend.copied_step.get(int(trial.trial_id))))
+
+    tuner = Tuner(trial_backend=backend, scheduler=scheduler, callbacks=[FirstReport()],
                   stop_criterion=StoppingCriterion(max_num_trials_started=4, max_wallclock_time=60),
                   n_workers=1, sleep_time=0.1, tuner_name="c20-localfs", save_tuner=False,
                   trial_backend_path=str(tmp / "exp2"))
@@ -170,7 +216,7 @@ def stream_tuner(tmp):
     return list(backend.events), crash
 
 
-def run_streams(which=("backend", "tuner")):
+def run_streams(which=("backend", "backend_keep", "tuner")):
     """[(stream name, events, crash, violations)]"""
     logging.disable(logging.CRITICAL)
     out = []
@@ -178,6 +224,9 @@ def run_streams(which=("backend", "tuner")):
         tmp = Path(tmp)
         (tmp / "train.py").write_text(SCRIPT)
         for name in which:
-            events, crash = (stream_backend if name == "backend" else stream_tuner)(tmp)
+            if name == "tuner":
+                events, crash = stream_tuner(tmp)
+            else:
+                events, crash = stream_backend(tmp, delete_checkpoints=(name == "backend"))
             out.append((name, events, crash, check_events(events)))
     return out
